@@ -36,6 +36,9 @@ type C11Case struct {
 	// SendFail (caller-cancel, bidi): instead of cancelling, the caller's last act is a SendMsg that fails to encode
 	// its message; it then walks away from the stream without cancelling or reading
 	SendFail bool `json:"send_fail,omitempty"`
+	// Early (caller-cancel): the caller calls Header() and Trailer() right after its first receive, long before the
+	// stream has ended (Trailer() then has nothing to report)
+	Early bool `json:"early,omitempty"`
 }
 
 func genC11(t *rapid.T) C11Case {
@@ -55,6 +58,7 @@ func genC11(t *rapid.T) C11Case {
 		c.Kind = rapid.SampledFrom([]int{kit.KindServer, kit.KindBidi}).Draw(t, "skind")
 		c.M = rapid.IntRange(0, 8).Draw(t, "m")
 		c.SendFail = c.Kind == kit.KindBidi && rapid.IntRange(0, 2).Draw(t, "send_fail") == 0
+		c.Early = rapid.IntRange(0, 2).Draw(t, "early") == 0
 	case "client-extra":
 		c.Extra = rapid.IntRange(1, 6).Draw(t, "extra")
 		c.Shape = rapid.SampledFrom([]string{"bodies-after-halfclose", "bodies-after-return", "trailers-after-halfclose", "mixed"}).Draw(t, "shape")
@@ -246,6 +250,10 @@ func execC11(t *testing.T, c C11Case) (v Verdict) {
 				// read exactly one response, leave m unread
 				if _, err := kit.RecvBytes(cs); err != nil {
 					v.failf("first receive: %v", err)
+				}
+				if c.Early {
+					_, _ = cs.Header()
+					_ = cs.Trailer()
 				}
 				kit.Settle() // responses are now stacked up in the client (offered, buffered, parked in dispatch)
 				// No settle between starting the bystanders and the cancel: while the
@@ -467,7 +475,7 @@ func execC11(t *testing.T, c C11Case) (v Verdict) {
 		nt = nt || c.N-c.K >= 2
 	}
 	if c.Mode == "caller-cancel" {
-		labels = append(labels, fmt.Sprintf("unread_responses=%d", c.M), fmt.Sprintf("send_fail=%v", c.SendFail))
+		labels = append(labels, fmt.Sprintf("unread_responses=%d", c.M), fmt.Sprintf("send_fail=%v", c.SendFail), fmt.Sprintf("early_trailer=%v", c.Early))
 		nt = nt || c.M >= 3
 	}
 	if c.Extra > 0 {
